@@ -123,6 +123,17 @@ class CaseEval:
                     t = self.truth(body) if body is not None else None
                     if t is not None:
                         return ("Some" if t else "None") in a[2]
+            if subj[0] == "call" and set(a[2]) <= {"Ok", "Err"} and len(a[2]) == 1:
+                # `check(x)` matched / tested as Ok or Err, `check` a write-free predicate function returning Result: decided by
+                # the comparison its Err return is taken under
+                from .cfg import result_predicate, bool_atoms
+                r = result_predicate(self.q.w.prog, subj)
+                if r is not None:
+                    ats = bool_atoms(r, a[2][0] == "Err")
+                    if len(ats) == 1:
+                        t = self.atom_truth(ats[0])
+                        if t is not None:
+                            return t
             for d in self.deciders:
                 r = d(a2)
                 if r is not None:
